@@ -125,7 +125,7 @@ func (w *World) st(prop string) *PropStats {
 func (w *World) Eval(prop string) { w.st(prop).Evaluations++ }
 
 // Event counts an observed event kind.
-func (w *World) Event(prop, kind string) { w.st(prop).Events[kind]++ }
+func (w *World) Event(prop, kind string)           { w.st(prop).Events[kind]++ }
 func (w *World) EventN(prop, kind string, n int64) { w.st(prop).Events[kind] += n }
 
 // Case records an abstract non-trivial case key (for distinct_nontrivial).
